@@ -17,7 +17,8 @@ ASSUMPTIONS = [
 ]
 
 SCORERS = [None, {"cls": "L2Cost"}, {"cls": "LocalAnomalyScore", "cost": {"cls": "L2Cost"}}, {"cls": "GaussianVarCost"},
-           {"cls": "L1Cost"}, "function", "table", {"cls": "GaussianCovCost"}, {"cls": "SecondMomentLocalScore"}]
+           {"cls": "L1Cost"}, "function", "table", {"cls": "GaussianCovCost"}, {"cls": "SecondMomentLocalScore"},
+           {"cls": "SeriesScaledLocalScore"}]
 
 
 def oracle_spec(spec):
